@@ -107,8 +107,14 @@ func (r *addrsRecord) clean(now time.Time) (chgd bool) {
 	}
 
 	r.Addrs = removeExpired(r.Addrs, nowUnix)
+	if len(r.Addrs) != addrsLen {
+		// The stored copy still holds the expired entries. Keep the record dirty
+		// until it is flushed: not every caller writes it back right away (read
+		// paths load with update=false), and GC works from the cached record.
+		r.dirty = true
+	}
 
-	return r.dirty || len(r.Addrs) != addrsLen
+	return r.dirty
 }
 
 func (r *addrsRecord) hasExpiredAddrs(now int64) bool {
